@@ -502,6 +502,17 @@ func runConcurrent(e *core.Env) {
 	rec.Rule("concurrent: one case = k (2..32) goroutines released together, each presenting the same valid request to one real server (optionally racing with fresh traffic that makes the pool contended); class = (k, number accepted, interleaving signature = order in which the copies returned)")
 	n := e.N(300, 8000)
 	core.Parallel(e, "concurrent", n, 4, func(i int) {
+		// in a synctest bubble: the goroutines still race on real processors, but the clock the 30 s window is measured
+		// on stands still, however loaded the machine is
+		if dead := core.Bubble(e, func() { concurrentCase(e, i) }); dead != "" {
+			rec.Inconclusive("bubble:" + dead)
+		}
+	})
+}
+
+func concurrentCase(e *core.Env, i int) {
+	rec := e.Rec
+	{
 		r := core.NewRNG(e.Seed, "c03.conc", i)
 		cfg := ssx.NewCfg(r.Pick(16, 32), r.Pick(0, 2), "c03c")
 		cfg.UDP = false
@@ -575,7 +586,7 @@ func runConcurrent(e *core.Env) {
 		if i%400 == 0 {
 			rec.Sample(8, d)
 		}
-	})
+	}
 }
 
 // --- porcupine check of SaltPool.Add / Contains under a fixed now ---
